@@ -15,14 +15,15 @@ pub use constants::{LAST_COLUMN, LAST_ROW};
 /// what stringify_reference prints: an uninterpreted function of ALL its arguments (its own contract is unit refshift)
 pub uninterp spec fn sr(context: Option<&CellReferenceRC>, d: DisplaceData, sheet_named: bool, sheet_index: u32, row: i32, column: i32,
                         absolute_row: bool, absolute_column: bool, full_row: bool, full_column: bool) -> Seq<char>;
+#[verifier::external_body] pub struct Language { _o: u8 }
 #[verifier::external_body]
-pub fn stringify_reference(context: Option<&CellReferenceRC>, displace_data: &DisplaceData, reference: &Reference, full_row: bool, full_column: bool) -> (r: String)
+pub fn stringify_reference(context: Option<&CellReferenceRC>, displace_data: &DisplaceData, reference: &Reference, full_row: bool, full_column: bool, language: &Language) -> (r: String)
     ensures r@ == sr(context, *displace_data, reference.sheet_name.is_some(), reference.sheet_index, reference.row, reference.column,
                      reference.absolute_row, reference.absolute_column, full_row, full_column)
 { unimplemented!() }
 
 pub fn arm_reference(context: Option<&CellReferenceRC>, displace_data: &DisplaceData, sheet_name: &Option<String>, sheet_index: &u32,
-                     column: &i32, row: &i32, absolute_row: &bool, absolute_column: &bool) -> (r: String)
+                     column: &i32, row: &i32, absolute_row: &bool, absolute_column: &bool, language: &Language) -> (r: String)
     ensures r@ == sr(context, *displace_data, sheet_name.is_some(), *sheet_index, *row, *column, *absolute_row, *absolute_column, false, false)
 {
 //@arm#2 base/src/expressions/parser/stringify.rs stringify `ReferenceKind {`
@@ -37,7 +38,7 @@ pub open spec fn is_full_column(absolute_column1: bool, absolute_column2: bool, 
 }
 pub fn arm_range(context: Option<&CellReferenceRC>, displace_data: &DisplaceData, sheet_name: &Option<String>, sheet_index: &u32,
                  absolute_row1: &bool, absolute_column1: &bool, row1: &i32, column1: &i32,
-                 absolute_row2: &bool, absolute_column2: &bool, row2: &i32, column2: &i32) -> (r: String)
+                 absolute_row2: &bool, absolute_column2: &bool, row2: &i32, column2: &i32, language: &Language) -> (r: String)
 //@arm#1 base/src/expressions/parser/stringify.rs stringify `RangeKind {`
 //@before `format!("{s1}:{s2}")`
             proof {
